@@ -137,6 +137,10 @@ pub enum Entry {
     Multi { sender: String, msgs: Vec<Msg> },
     SudoMint { to: String, coins: Coins },
     SendHelper { from: String, to: String, coins: Coins },
+    /// app.execute(sender, msg) for any message kind (calls carry their own root node)
+    User { sender: String, msg: Msg },
+    /// App::contract_storage_mut(contract).set/remove
+    AccessorWrite { contract: String, write: WriteOp },
 }
 
 #[derive(Clone, Debug, PartialEq, Eq, Serialize, Deserialize, Hash)]
